@@ -290,3 +290,70 @@ func HarnessC16SharedSlices() {
 		check(ok && ci.id == i+1, "options never modify the caller's interceptor slice")
 	}
 }
+
+// c16Tree arranges the single-interceptor options ids[0..] into a symbolic
+// tree of WithOptions groups: consecutive segments, each either left as
+// siblings or wrapped (recursively) in one WithOptions.
+func c16Tree(ids []int, depth int) []Option {
+	var out []Option
+	start := 0
+	for i := 1; i <= len(ids); i++ {
+		if i < len(ids) && !nondetBool("treeCut") {
+			continue
+		}
+		seg := ids[start:i]
+		start = i
+		switch {
+		case depth > 0 && len(seg) > 1 && nondetBool("treeWrap"):
+			out = append(out, WithOptions(c16Tree(seg, depth-1)...))
+		case len(seg) == 1 && nondetBool("leafWrap"):
+			out = append(out, WithOptions(WithInterceptors(&c16Interceptor{id: seg[0]})))
+		default:
+			for _, id := range seg {
+				out = append(out, WithInterceptors(&c16Interceptor{id: id}))
+			}
+		}
+	}
+	return out
+}
+
+// HarnessC16OptionTrees: interceptors 1..n spread over an arbitrary tree of
+// nested WithOptions groups (groups with several members, followed and
+// preceded by siblings) take effect in declaration order, each exactly once,
+// on a handler and on a client; building the tree twice from the same values
+// gives the same chain.
+//
+//verif:harness property=C16 stubs=json,wire
+func HarnessC16OptionTrees() {
+	n := bound("treeLeaves", 4, 5)
+	ids := make([]int, n)
+	for i := range ids {
+		ids[i] = i + 1
+	}
+	opts := c16Tree(ids, 2)
+	root := Option(WithOptions(opts...))
+	if nondetBool("flatRoot") {
+		root = nil
+	}
+	var hopts []HandlerOption
+	var copts []ClientOption
+	if root != nil {
+		hopts, copts = []HandlerOption{root}, []ClientOption{root}
+	} else {
+		for _, o := range opts {
+			hopts = append(hopts, o)
+			copts = append(copts, o)
+		}
+	}
+	in := []byte{7}
+	c16Log = nil
+	handler := NewUnaryHandler("/pkg.Svc/Method", c16EchoUnary(), stackHandlerOptions(hopts...)...)
+	plain := NewClient[[]byte, []byte](&stackTransport{handler: handler}, stackURL, stackClientOptions(0)...)
+	_, err := plain.CallUnary(context.Background(), NewRequest(&in))
+	check(err == nil && intsEq(c16Log, c16Expect(ids, 1)), "handler interceptors declared through nested option groups nest in declaration order, each exactly once")
+	c16Log = nil
+	bare := NewUnaryHandler("/pkg.Svc/Method", c16EchoUnary(), stackHandlerOptions()...)
+	client := NewClient[[]byte, []byte](&stackTransport{handler: bare}, stackURL, stackClientOptions(0, copts...)...)
+	_, err = client.CallUnary(context.Background(), NewRequest(&in))
+	check(err == nil && intsEq(c16Log, c16Expect(ids, 1)), "client interceptors declared through nested option groups nest in declaration order, each exactly once")
+}
